@@ -55,6 +55,11 @@ func spec() corr.Spec {
 			}
 			// encoder results the script still holds must not have been changed by later encodes
 			res.Hits = append(res.Hits, checkHeld()...)
+			for k := range res.Hits {
+				if len(res.Hits[k].What) > 420 {
+					res.Hits[k].What = res.Hits[k].What[:400] + "… (truncated)"
+				}
+			}
 			return res
 		},
 		NonTrivial: func(c corr.Case, r corr.Result) bool {
